@@ -46,6 +46,10 @@ pub enum Op {
 	RecvBA0Hold,
 	/// the held transaction is posted
 	PostHeld,
+	/// A.default reserves everything it holds (minimum_confirmations = 0, use_all) for a send that is never posted
+	PendZeroConfA0,
+	/// that reservation is cancelled (it was never broadcast)
+	CancelPendZeroConfA0,
 	SwitchA,
 	RefreshA,
 	RefreshB,
@@ -350,6 +354,34 @@ impl Model for M {
 					}
 					Err(e) => out.label = err_label(&e),
 				}
+				w.w("A").set_account(&active).unwrap();
+				touched_a = Some("m/0/0");
+			}
+			Op::PendZeroConfA0 => {
+				w.w("A").set_account("default").unwrap();
+				let a = w.w("A");
+				let mut args = default_args(9 * G);
+				args.minimum_confirmations = 0;
+				args.selection_strategy_is_use_all = true;
+				match a.init_send(args).and_then(|s| a.lock(&s).map(|_| s)) {
+					Ok(s) => {
+						w.meta.extra["pend_zero"] = json!(s.id.to_string());
+						out.label = "ok".into();
+					}
+					Err(e) => out.label = err_label(&e),
+				}
+				w.w("A").set_account(&active).unwrap();
+				touched_a = Some("m/0/0");
+			}
+			Op::CancelPendZeroConfA0 => {
+				w.w("A").set_account("default").unwrap();
+				out.label = match w.meta.extra["pend_zero"].as_str().and_then(|x| uuid::Uuid::parse_str(x).ok()) {
+					Some(id) => match w.w("A").cancel(None, Some(id)) {
+						Ok(()) => "ok".into(),
+						Err(e) => err_label(&e),
+					},
+					None => "nothing-pending".into(),
+				};
 				w.w("A").set_account(&active).unwrap();
 				touched_a = Some("m/0/0");
 			}
@@ -680,6 +712,10 @@ pub fn run(_args: &[String]) -> i32 {
 			// a payment received long after the receiver last looked at the chain, refreshed while still unposted
 			dpaths.push(vec![Op::MineM51, Op::RecvBA0Hold, Op::RefreshA, Op::PostHeld, Op::MineM, Op::RefreshA]);
 			dpaths.push(vec![Op::RecvBA0Hold, Op::MineM51, Op::RefreshA, Op::PostHeld, Op::MineM, Op::RefreshA]);
+			// an output reserved (zero-confirmation send, never posted) before the wallet has seen it on
+			// chain, mined while reserved, the reservation then cancelled
+			dpaths.push(vec![Op::RecvBA0Hold, Op::PendZeroConfA0, Op::PostHeld, Op::MineM, Op::RefreshA, Op::CancelPendZeroConfA0, Op::RefreshA]);
+			dpaths.push(vec![Op::RecvBA0Hold, Op::PendZeroConfA0, Op::PostHeld, Op::MineM, Op::MineM, Op::RefreshA, Op::CancelPendZeroConfA0, Op::MineM, Op::RefreshA]);
 			dpaths.push(vec![Op::PendingA1, Op::PendingCancelA0]);
 			dpaths.push(vec![Op::PendingA1, Op::PendingCancelA0, Op::SwitchA, Op::RefreshA]);
 			dpaths.push(vec![Op::PendingA1, Op::PendingCancelA0, Op::MineM, Op::RefreshA]);
